@@ -304,12 +304,18 @@ def h1_chunk(chunk):
 
 
 def run(ctx):
+    global NAMES, VALUES, VLISTS
     depth = ctx.pick(4, 5)
     h1len = ctx.pick(2, 3)
     ctx.bounds = {"bfs_depth": depth, "max_fields": MAXLEN, "names": [repr(n) for n in NAMES], "values": VALUES,
                   "h1_max_fields": h1len, "h1_names": len(H1_NAMES), "h1_values": len(H1_VALUES)}
     spec = Spec()
     states, capped = explore.bfs(spec, depth, ctx.tally, log=ctx.log)
+    # second scope: empty values (legal: `A: `) next to a non-empty one, fewer names, same depth
+    NAMES, VALUES, VLISTS = ["A", "a", b"a"], ["", "1"], [[], [""], ["", "1"], ["1", ""]]
+    ctx.bounds["second_scope"] = {"names": [repr(n) for n in NAMES], "values": VALUES, "bfs_depth": depth}
+    states2, _ = explore.bfs(Spec(), depth, ctx.tally, log=ctx.log)
+    NAMES, VALUES, VLISTS = ["A", "a", "B", b"a"], ["1", "2"], [[], ["1"], ["2", "1"], ["1", "1", "2"]]
     ctx.log("bfs done: %d states" % states)
     par.pmap_tally(h1_chunk, list(h1_cases(h1len)), ctx.tally)
 
